@@ -6,7 +6,7 @@ ID = "C14"
 OPT_QUICK_ALL = True      # every partition also in a child interpreter started with -O
 LEVEL = "exploration"
 TECHNIQUE = "complete enumeration of the five opcode tables, their service-action tables, the status table and all 256 opcode values against an independent T10 table"
-RULE = ("every named entry of spc/sbc/ssc/smc/mmc, every entry of every service-action table, every SCSI_STATUS entry, every pair "
+RULE = ("the service-action table of every entry of every set edited in the documented way (vendor action added, first action re-numbered, last action removed): every other entry of every set unchanged; every named entry of spc/sbc/ssc/smc/mmc, every entry of every service-action table, every SCSI_STATUS entry, every pair "
         "of sets sharing a name, every name of any set looked up on every set (refused, or the T10 value; tables unchanged afterwards), copies (copy, deepcopy) of every entry and of a command built from it, every table walked again after each assignment of another value or type to a public attribute (opcode, cdb, page_code, result, buffers) of a command built from each entry, and init_cdb for each of the 256 opcode values, also carried by OpCode objects of every shipped name (and names of the 32-byte / variable-length commands) with the entry's own service-action table, and by objects re-pointed through the value setter from a code of each group. Non-trivial = the oracle has its own T10 value "
         "for the entry (or a length/refusal expectation for the opcode value); distinct = distinct (kind, set, name|value).")
 ASSUMPTIONS = [
@@ -36,7 +36,7 @@ def _sets():
 
 
 def partitions(tier):
-    return [["tables"], ["init_cdb"], ["lookups"], ["after_use"]]
+    return [["tables"], ["init_cdb"], ["lookups"], ["after_use"], ["sa_edit"]]
 
 
 def t10_any(name):
@@ -163,6 +163,59 @@ def check_after_use(name, st, key, i):
     return []
 
 
+def _snapshot():
+    E, sets = _sets()
+    snap = {}
+    for s_ in SETS:
+        for k in sets[s_].keys:
+            o = getattr(sets[s_], k)
+            snap[(s_, k)] = (getattr(o, "value", None), tuple((sk, getattr(o.serviceaction, sk)) for sk in o.serviceaction.keys))
+    return snap
+
+
+def check_sa_edit(setname, key, edit):
+    """the documented way to teach one entry a device quirk (Enum.remove / Enum.add on ITS service-action table) concerns that entry
+    only: every other entry of every set keeps its names and T10 values; afterwards the edit is undone"""
+    E, sets = _sets()
+    op = getattr(sets[setname], key)
+    sa = op.serviceaction
+    before = _snapshot()
+    names = list(sa.keys)
+    undo = []
+    try:
+        if edit == "vendor":
+            sa.add("VENDOR_SPECIFIC_VERIF", 0x1F)
+            undo.append(lambda: sa.remove("VENDOR_SPECIFIC_VERIF"))
+        elif edit == "renumber" and names:
+            n0, v0 = names[0], getattr(sa, names[0])
+            sa.remove(n0)
+            sa.add(n0, (v0 ^ 0x10) & 0x1F)
+            undo.append(lambda: (sa.remove(n0), sa.add(n0, v0)))
+        elif edit == "remove" and names:
+            n0, v0 = names[-1], getattr(sa, names[-1])
+            sa.remove(n0)
+            undo.append(lambda: sa.add(n0, v0))
+        else:
+            return []
+    except Exception as e:   # noqa: BLE001
+        return [("sa_edit/raises", "%s.%s.serviceaction %s raised %s: %s" % (setname, key, edit, type(e).__name__, e))]
+    after = _snapshot()
+    out = []
+    for k2, v2 in before.items():
+        if k2 != (setname, key) and after.get(k2) != v2:
+            out.append(("sa_edit/other_entry_changed/%s" % edit, "after %s.%s.serviceaction was edited (%s), %s.%s changed: service actions %r, before %r"
+                        % (setname, key, edit, k2[0], k2[1], dict(after.get(k2, (None, ()))[1]), dict(v2[1]))))
+            break
+    for u in undo:
+        try:
+            u()
+        except Exception:   # noqa: BLE001
+            pass
+    if {k: (v[0], sorted(v[1])) for k, v in _snapshot().items()} != {k: (v[0], sorted(v[1])) for k, v in before.items()}:
+        out.append(("sa_edit/not_restorable", "after undoing the edit of %s.%s.serviceaction the tables differ from before" % (setname, key)))
+    return out
+
+
 def check_clone(setname, key):
     """copies of a table entry, and of a command built from it, carry the T10 value of the name they were taken under"""
     import copy
@@ -196,6 +249,8 @@ def run_case(case):
         return check_clone(case[1], case[2])
     if kind == "after_use":
         return check_after_use(*case[1:])
+    if kind == "sa_edit":
+        return check_sa_edit(*case[1:])
     if kind == "op":
         return check_entry(case[1], case[2])[0]
     if kind == "sa":
@@ -276,6 +331,14 @@ def run_partition(part, tier, seed):
                     if v not in want:
                         acc.violation("lookup/table_value_after_use/%s.%s" % (s, key), "after the lookups %s.%s = %#04x, T10 assigns %s"
                                       % (s, key, v, sorted("%#04x" % x for x in want)), ["op", s, key])
+        return acc
+    if part[0] == "sa_edit":
+        for s_ in SETS:
+            for key in sets[s_].keys:
+                for edit in ("vendor", "renumber", "remove"):
+                    do(["sa_edit", s_, key, edit])
+                    if any(k.startswith("sa_edit/not_restorable") for k in acc.viol):
+                        return acc
         return acc
     if part[0] == "after_use":
         from vf import cmdspace as CS
